@@ -1,7 +1,589 @@
-import CB.Driver.Util
-namespace CB
+/-
+  CB.Driver.C15 — line protocol of property C15 (all routes to the same operation agree).
 
+  One op line = one route FAMILY.  The harness (harness/src/ops/c15.rs) executes every route of the family
+  on the same input and prints `r1 | r2 | …`; this driver prints the same tuple twice:
+      <L1 of route 1> | <L1 of route 2> | …  ;;  <L0 of route 1> | <L0 of route 2> | …
+  L1 of a route = the limb-level model function of THAT route (the models of C02–C07, C20; a route that
+  merely forwards shares the model function of its target), L0 = what the property demands: every route
+  equals the specification value on `Nat`, fixed results printed as hex, boxed results as
+  `<documented nlimbs>:<hex>`.  The route order in every family follows the order in c15.rs.
+-/
+import CB.Driver.Util
+import CB.Model.AddSubForms
+import CB.Model.Bits
+import CB.Model.Karatsuba
+import CB.Model.ModArith
+import CB.Model.Sqrt
+import CB.Model.Div
+namespace CB
+namespace D15
+open CB CB.Cmp CB.AddSub
+
+/-- a route: (L1 token, L0 token) -/
+abbrev Route := String × String
+
+def fam (rs : List Route) : Option String :=
+  some (" | ".intercalate (rs.map (·.1)) ++ " ;; " ++ " | ".intercalate (rs.map (·.2)))
+
+def rep (k : Nat) (r : Route) : List Route := List.replicate k r
+
+def lenHex (n v : Nat) : String := s!"{n}:{natToHex v}"
+def bitTok (b : Bool) : String := if b then "1" else "0"
+def ordTok (o : Int) : String := if o < 0 then "lt" else if o = 0 then "eq" else "gt"
+def natOrd (a b : Nat) : Int := if a < b then -1 else if a = b then 0 else 1
+
+/-- `Option` = panic on none -/
+def pHex : Option (List Nat) → String
+  | some r => limbsHex r
+  | none => "panic"
+def pLen : Option (List Nat) → String
+  | some r => limbsHexLen r
+  | none => "panic"
+def pDec : Option Nat → String
+  | some r => toString r
+  | none => "panic"
+/-- value under a mask: `none` when the mask is false -/
+def mHex (o : List Nat × Nat) : String :=
+  if o.2 = WMAX then limbsHex o.1 else if o.2 = 0 then "none" else s!"badchoice:{natToHex o.2}"
+def mLen (o : List Nat × Nat) : String :=
+  if o.2 = WMAX then limbsHexLen o.1 else if o.2 = 0 then "none" else s!"badchoice:{natToHex o.2}"
+/-- value under a mask, consumed by `expect`: `panic` when the mask is false -/
+def xHex (o : List Nat × Nat) : String :=
+  if o.2 = WMAX then limbsHex o.1 else if o.2 = 0 then "panic" else s!"badchoice:{natToHex o.2}"
+def oHex : Option (List Nat) → String
+  | some r => limbsHex r
+  | none => "none"
+def oLen : Option (List Nat) → String
+  | some r => limbsHexLen r
+  | none => "none"
+
+def bitlen0 (x : Nat) : Nat := if x = 0 then 0 else Nat.log2 x + 1
+def tz0 (bits x : Nat) : Nat := Id.run do
+  if x = 0 then return bits
+  let mut k := 0
+  let mut y := x
+  for _ in [0:bits] do
+    if y % 2 = 1 then break
+    k := k + 1
+    y := y / 2
+  return k
+def to0 (bits x : Nat) : Nat := tz0 bits (2 ^ bits - 1 - x)
+
+/-- `c15.<family> n v…` with all values parsed as hex (`vs`) -/
+def valueFam (name : String) (n : Nat) (vs : List Nat) : Option String :=
+  let L := toLimbs n
+  let K := B ^ n
+  let h := natToHex
+  let hl := lenHex n
+  match name, vs with
+  -- ------------------------------------------------------------------ C04
+  | "add", [a, b] =>
+    let x := L a; let y := L b
+    let s := (a + b) % K
+    fam (rep 8 (limbsHex (wrappingAdd x y), h s) ++ [(limbsHex (uadc x y 0).1, h s)]
+      ++ rep 4 (limbsHexLen (badc x y 0).1, hl s)
+      ++ rep 2 (pLen (boxedWrappingAddAssign x y), hl s)
+      ++ [(limbsHexLen (badc x y 0).1, hl s), (limbsHexLen (adcAssign x y 0).1, hl s)])
+  | "sub", [a, b] =>
+    let x := L a; let y := L b
+    let s := (a + K - b % K) % K
+    fam (rep 8 (limbsHex (wrappingSub x y), h s) ++ [(limbsHex (usbb x y 0).1, h s)]
+      ++ rep 4 (limbsHexLen (bsbb x y 0).1, hl s)
+      ++ rep 2 (pLen (boxedWrappingSubAssign x y), hl s)
+      ++ [(limbsHexLen (bsbb x y 0).1, hl s), (limbsHexLen (sbbAssign x y 0).1, hl s)])
+  | "cadd", [a, b] =>
+    let x := L a; let y := L b
+    let fits := a + b < K
+    let o0 := if fits then h (a + b) else "none"
+    let p0 := if fits then h (a + b) else "panic"
+    let bo0 := if fits then hl (a + b) else "none"
+    let bp0 := if fits then hl (a + b) else "panic"
+    let ra := badc x y 0
+    fam ([(mHex (checkedAdd x y), o0)] ++ rep 6 (oHex (checkedAddO (some x) (some y)), o0)
+      ++ rep 4 (xHex (checkedAdd x y), p0)
+      ++ [(if fromWordEq ra.2 0 = WMAX then limbsHexLen ra.1 else "none", bo0)]
+      ++ rep 4 (pLen (boxedOpAdd x y), bp0)
+      ++ rep 8 (pLen (boxedAddAssign x y), bp0))
+  | "csub", [a, b] =>
+    let x := L a; let y := L b
+    let fits := b ≤ a
+    let o0 := if fits then h (a - b) else "none"
+    let p0 := if fits then h (a - b) else "panic"
+    let bo0 := if fits then hl (a - b) else "none"
+    let bp0 := if fits then hl (a - b) else "panic"
+    let rs := bsbb x y 0
+    fam ([(mHex (checkedSub x y), o0)] ++ rep 6 (oHex (checkedSubO (some x) (some y)), o0)
+      ++ rep 4 (xHex (checkedSub x y), p0)
+      ++ [(if fromWordEq rs.2 0 = WMAX then limbsHexLen rs.1 else "none", bo0)]
+      ++ rep 4 (pLen (boxedOpSub x y), bp0)
+      ++ rep 8 (pLen (boxedSubAssign x y), bp0))
+  | "neg", [a] =>
+    let x := L a
+    let s := (K - a % K) % K
+    fam (rep 4 (limbsHex (wrappingNeg x), h s)
+      ++ [(limbsHex (carryingNeg x).1, h s), (limbsHex (wrappingNegIf x WMAX), h s),
+          (limbsHex (wrappingSub (uzero n) x), h s)]
+      ++ rep 3 (limbsHexLen (wrappingNeg x), hl s)
+      ++ [(limbsHexLen (uselect x (wrappingNeg x) WMAX), hl s), (limbsHexLen (bsbb (uzero n) x 0).1, hl s)])
+  -- ------------------------------------------------------------------ C05 bitwise
+  | "and", [a, b] =>
+    let x := L a; let y := L b
+    let s := a &&& b
+    fam (rep 12 (limbsHex (Bits.ubitand x y), h s) ++ rep 10 (limbsHexLen (Bits.mapLimbs (· &&& ·) x y), hl s))
+  | "or", [a, b] =>
+    let x := L a; let y := L b
+    let s := a ||| b
+    fam (rep 12 (limbsHex (Shift.ubitor x y), h s) ++ rep 5 (limbsHexLen (Bits.mapLimbs (· ||| ·) x y), hl s)
+      ++ rep 2 (limbsHexLen (Bits.orAssign x y), hl s) ++ rep 3 (limbsHexLen (Bits.mapLimbs (· ||| ·) x y), hl s))
+  | "xor", [a, b] =>
+    let x := L a; let y := L b
+    let s := a ^^^ b
+    fam (rep 12 (limbsHex (Bits.ubitxor x y), h s) ++ rep 10 (limbsHexLen (Bits.mapLimbs (· ^^^ ·) x y), hl s))
+  | "not", [a] =>
+    let x := L a
+    let s := K - 1 - a
+    fam (rep 3 (limbsHex (Bits.unot x), h s) ++ [(limbsHex (Bits.ubitxor x (umax n)), h s)]
+      ++ rep 3 (limbsHexLen (Bits.unot x), hl s))
+  -- ------------------------------------------------------------------ C06
+  | "cmp", [a, b] =>
+    let x := L a; let y := L b
+    let o := ordTok (natOrd a b)
+    let fromCt (lt gt : Nat) : String := if lt = WMAX then "lt" else if gt = WMAX then "gt" else "eq"
+    fam ([(ordTok (ucmp x y), o), (ordTok (ucmp x y), o), (ordTok (ucmpVartime x y), o), (ordTok (-(ucmp y x)), o),
+          (fromCt (ult x y) (ugt x y), o),
+          (ordTok (bcmp x y), o), (ordTok (bcmp x y), o), (ordTok (ucmpVartime x y), o),
+          (fromCt (bctLt x y) (bctGt x y), o)])
+  | "eq", [a, b] =>
+    let x := L a; let y := L b
+    let e := bitTok (a = b)
+    fam (rep 4 (choiceTok (ueq x y), e) ++ [(bitTok (ucmpVartime x y = 0), e)]
+      ++ rep 3 (bitTok (bctEq x y = 1), e))
+  | "lt", [a, b] =>
+    let x := L a; let y := L b
+    let e := bitTok (a < b)
+    fam [(choiceTok (ult x y), e), (bitTok (ucmp x y < 0), e), (choiceTok (ugt y x), e), (bitTok (ucmp y x > 0), e),
+         (bitTok (ucmpVartime x y < 0), e),
+         (choiceTok (bctLt x y), e), (bitTok (bcmp x y < 0), e), (choiceTok (bctGt y x), e), (bitTok (bcmp y x > 0), e)]
+  | "is_zero", [a] =>
+    let x := L a
+    let e := bitTok (a = 0)
+    fam [(choiceTok (choiceNot (isNonzero x)), e), (choiceTok (ueq x (uzero n)), e), (choiceTok (ueq x (uzero n)), e),
+         (match Bits.bitsVartime x with | some k => bitTok (k = 0) | none => "panic", e),
+         (choiceTok (ModArith.bIsZero x), e), (bitTok (bctEq x [0] = 1), e),
+         (match Bits.bitsVartime x with | some k => bitTok (k = 0) | none => "panic", e)]
+  | "is_odd", [a] =>
+    let x := L a
+    let e := bitTok (a % 2 = 1)
+    fam (rep 2 (choiceTok (isOdd x), e) ++ [(choiceTok (choiceNot (choiceNot (isOdd x))), e), (bitTok (Bits.bitVartime x 0), e)]
+      ++ rep 2 (choiceTok (isOdd x), e) ++ [(choiceTok (choiceNot (choiceNot (isOdd x))), e), (bitTok (Bits.bitVartime x 0), e)])
+  -- ------------------------------------------------------------------ C03
+  | "wmul", [a, b] =>
+    let x := L a; let y := L b
+    let s := (a * b) % K
+    fam (rep 8 (limbsHex (Mul.wrappingOfPair (Karatsuba.splitMul x y)), h s) ++ [(limbsHex (Karatsuba.splitMul x y).1, h s)]
+      ++ rep 5 (limbsHexLen (Karatsuba.boxedWrappingMul x y), hl s))
+  | "cmul", [a, b] =>
+    let x := L a; let y := L b
+    let fits := a * b < K
+    let c := Mul.checkedOfPair (Karatsuba.splitMul x y)
+    fam (rep 7 (mHex c, if fits then h (a * b) else "none") ++ rep 6 (xHex c, if fits then h (a * b) else "panic")
+      ++ [(mLen (Karatsuba.boxedCheckedMul x y), if fits then hl (a * b) else "none")])
+  | "mulwide", [a, b] =>
+    let x := L a; let y := L b
+    let p := a * b
+    let lohi (r : List Nat × List Nat) : String := s!"{limbsHex r.1} {limbsHex r.2}"
+    let l0 := s!"{h (p % K)} {h (p / K)}"
+    let w0 := lenHex (2 * n) p
+    -- the last route is `&a * &b` on boxed operands: the crate's impl is the CHECKED product at the left
+    -- operand's precision; the property demands what `a * b` / `BoxedUint::mul` return
+    fam ([(lohi (Karatsuba.splitMul x y), l0), (lohi (Karatsuba.splitMul y x), l0),
+          (limbsHexLen (Karatsuba.boxedMul x y), w0), (limbsHexLen (Karatsuba.boxedMul y x), w0)]
+      ++ rep 7 (limbsHexLen (Karatsuba.boxedMul x y), w0)
+      ++ [(let c := Karatsuba.boxedCheckedMul x y
+           if c.2 = WMAX then limbsHexLen c.1 else if c.2 = 0 then "panic" else "badchoice", w0)])
+  | "square", [a] =>
+    let x := L a
+    let p := a * a
+    let lohi (r : List Nat × List Nat) : String := s!"{limbsHex r.1} {limbsHex r.2}"
+    let l0 := s!"{h (p % K)} {h (p / K)}"
+    let w0 := lenHex (2 * n) p
+    fam [(lohi (Karatsuba.squareWide x), l0), (lohi (Karatsuba.splitMul x x), l0),
+         (limbsHexLen (Karatsuba.boxedSquare x), w0), (limbsHexLen (Karatsuba.boxedMul x x), w0)]
+  | "wsquare", [a] =>
+    let x := L a
+    let p := a * a
+    let fits := p < K
+    let w0 := h (p % K)
+    let c0 := if fits then h p else "none"
+    let s0 := h (min p (K - 1))
+    fam [(limbsHex (Mul.wrappingOfPair (Karatsuba.squareWide x)), w0),
+         (limbsHex (Mul.wrappingOfPair (Karatsuba.splitMul x x)), w0),
+         (limbsHex (Karatsuba.squareWide x).1, w0),
+         (mHex (Mul.checkedSquareOfPair (Karatsuba.squareWide x)), c0),
+         (mHex (Mul.checkedOfPair (Karatsuba.splitMul x x)), c0),
+         (limbsHex (Mul.saturatingOfPair (Karatsuba.squareWide x)), s0),
+         (limbsHex (Mul.saturatingOfPair (Karatsuba.splitMul x x)), s0),
+         (limbsHexLen (Karatsuba.boxedWrappingMul x x), hl (p % K)),
+         (mLen (Karatsuba.boxedCheckedMul x x), if fits then hl p else "none")]
+  -- ------------------------------------------------------------------ C07 (generators keep a, b < p)
+  | "add_mod", [a, b, p] =>
+    let x := L a; let y := L b; let q := L p
+    let s := (a + b) % p
+    fam (rep 2 (limbsHex (ModArith.addMod x y q), h s) ++ rep 3 (limbsHexLen (ModArith.bAddMod x y q), hl s))
+  | "sub_mod", [a, b, p] =>
+    let x := L a; let y := L b; let q := L p
+    let s := (a + p - b % p) % p
+    fam (rep 2 (limbsHex (ModArith.subMod x y q), h s) ++ rep 2 (limbsHexLen (ModArith.bSubMod x y q), hl s))
+  | "neg_mod", [a, p] =>
+    let x := L a; let q := L p
+    let s := (p - a % p) % p
+    fam (rep 2 (limbsHex (ModArith.negMod x q), h s) ++ [(limbsHex (ModArith.subMod (uzero n) x q), h s)]
+      ++ rep 2 (limbsHexLen (ModArith.bNegMod x q), hl s))
+  | "double_mod", [a, p] =>
+    let x := L a; let q := L p
+    let s := (a + a) % p
+    fam [(limbsHex (ModArith.doubleMod x q), h s), (limbsHex (ModArith.addMod x x q), h s),
+         (limbsHexLen (ModArith.bDoubleMod x q), hl s), (limbsHexLen (ModArith.bAddMod x x q), hl s)]
+  | "mul_mod", [a, b, p] =>
+    let x := L a; let y := L b; let q := L p
+    let s := (a * b) % p
+    fam ([(limbsHex (ModArith.mulMod x y q), h s)] ++ rep 2 (limbsHex (ModArith.mulModVartime x y q), h s)
+      ++ [(limbsHex ((Div.divRemVartime (Mul.concatPair (Karatsuba.splitMul x y)) (Div.resize q (2 * n))).2.take n), h s)]
+      ++ rep 2 (limbsHexLen (ModArith.mulMod x y q), hl s)
+      ++ [(limbsHexLen (Div.boxedRemVartime (Karatsuba.boxedMul x y) q), hl s)])
+  | "mul_mod_special", [a, b, c] =>
+    let x := L a; let y := L b
+    let s := (a * b) % (K - c)
+    fam [(limbsHex (ModArith.mulModSpecial x y c), h s), (limbsHexLen (ModArith.bMulModSpecial x y c), hl s)]
+  | "sub_mod_special", [a, b, c] =>
+    let x := L a; let y := L b
+    let p := K - c
+    let s := (a + p - b % p) % p
+    fam [(limbsHex (ModArith.subModSpecial x y c), h s), (limbsHexLen (ModArith.bSubModSpecial x y c), hl s)]
+  | "neg_mod_special", [a, c] =>
+    let x := L a
+    let p := K - c
+    let s := (p - a % p) % p
+    fam [(limbsHex (ModArith.negModSpecial x c), h s), (limbsHexLen (ModArith.bNegModSpecial x c), hl s)]
+  -- ------------------------------------------------------------------ C20
+  | "sqrt", [a] =>
+    let x := L a
+    let s := Nat.sqrt a
+    let bv (o : Option (List Nat)) : String := match o with | some r => limbsHexLen r | none => "nofuel"
+    fam [(pHex (Sqrt.uintSqrt x), h s), (pHex (Sqrt.uintSqrtVartime x), h s), (pHex (Sqrt.uintWrappingSqrt x), h s),
+         (pHex (Sqrt.uintWrappingSqrtVartime x), h s), (pHex (Sqrt.uintSqrt x), h s), (pHex (Sqrt.uintSqrtVartime x), h s),
+         (limbsHexLen (Sqrt.boxedSqrt x), hl s), (bv (Sqrt.boxedSqrtVartime x), hl s),
+         (limbsHexLen (Sqrt.boxedWrappingSqrt x), hl s), (bv (Sqrt.boxedWrappingSqrtVartime x), hl s),
+         (limbsHexLen (Sqrt.boxedSqrt x), hl s), (bv (Sqrt.boxedSqrtVartime x), hl s)]
+  | "csqrt", [a] =>
+    let x := L a
+    let s := Nat.sqrt a
+    let sq := s * s = a
+    let fc (o : Option (List Nat × Bool)) : String :=
+      match o with | none => "panic" | some (r, ok) => if ok then limbsHex r else "none"
+    let bc (o : Option (List Nat × Bool)) : String :=
+      match o with | none => "nofuel" | some (r, ok) => if ok then limbsHexLen r else "none"
+    fam [(fc (Sqrt.uintCheckedSqrt x), if sq then h s else "none"),
+         (fc (Sqrt.uintCheckedSqrtVartime x), if sq then h s else "none"),
+         (bc (some (Sqrt.boxedCheckedSqrt x)), if sq then hl s else "none"),
+         (bc (Sqrt.boxedCheckedSqrtVartime x), if sq then hl s else "none")]
+  -- ------------------------------------------------------------------ C02 (generators keep d ≠ 0)
+  | "div", [a, d] =>
+    if d = 0 then badArgs else
+    let x := L a; let y := L d
+    let qr (p : List Nat × List Nat) : String := s!"{limbsHex p.1} {limbsHex p.2}"
+    let bqr (p : List Nat × List Nat) : String := s!"{limbsHexLen p.1} {limbsHexLen p.2}"
+    let ob (o : Option (List Nat × List Nat)) (f : List Nat × List Nat → String) : String :=
+      match o with | some p => f p | none => "panic"
+    let q0 := a / d; let r0 := a % d
+    let e := s!"{h q0} {h r0}"
+    let be := s!"{hl q0} {hl r0}"
+    let ct := (Div.wrappingDiv x y, Div.urem x y)
+    let vt := (Div.wrappingDivVartime x y, Div.remVartime x y)
+    let bvt := ((Div.boxedDivRemVartime x y).1, Div.boxedRemVartime x y)
+    let bcd : String := match Div.boxedCheckedDiv x y with
+      | some (some p) => limbsHexLen p | some none => "none" | none => "panic"
+    fam ([(qr (Div.divRemCt x y), e), (qr (Div.divRemVartime x y), e), (qr ct, e), (qr vt, e), (qr vt, e)]
+      ++ rep 11 (qr ct, e)
+      ++ [(s!"{oHex (Div.checkedDiv x y)} {oHex (Div.checkedRem x y)}", e),
+          (s!"{oHex (Div.checkedDiv x y)} {oHex (Div.checkedDiv x y)}", s!"{h q0} {h q0}"),
+          (limbsHex (Div.remWideVartime x (uzero n) y), h r0)]
+      ++ [(ob (Div.boxedDivRem x y) bqr, be), (bqr (Div.boxedDivRemVartime x y), be),
+          (ob (Div.boxedDivRem x y) bqr, be), (bqr bvt, be), (bqr bvt, be)]
+      ++ rep 6 (ob (Div.boxedDivRem x y) bqr, be)
+      ++ [(ob (Div.boxedDivRem x y) (fun p => limbsHexLen p.1), hl q0), (bcd, hl q0), (bcd, hl q0)])
+  | "divlimb", [a, d] =>
+    if d = 0 ∨ d ≥ B then badArgs else
+    let x := L a
+    let q0 := a / d; let r0 := a % d
+    let e := s!"{h q0} {h r0}"
+    let be := s!"{hl q0} {h r0}"
+    let rc := Div.Reciprocal.new d
+    let one := Div.divRemLimb x d
+    let pre := Div.divRemLimbWithReciprocal x rc
+    let p1 (p : List Nat × Nat) : String := s!"{limbsHex p.1} {natToHex p.2}"
+    let pb (p : List Nat × Nat) : String := s!"{limbsHexLen p.1} {natToHex p.2}"
+    fam ([(p1 one, e), (p1 pre, e), (p1 one, e), (p1 pre, e)]
+      ++ rep 6 (p1 (one.1, Div.remLimb x d), e)
+      ++ [(p1 (one.1, Div.remLimb x d), e), (p1 (one.1, Div.remLimbWithReciprocal x rc), e),
+          (p1 (one.1, Div.remLimb x d), e), (p1 (one.1, Div.remLimbWithReciprocal x rc), e)]
+      ++ rep 3 (p1 (one.1, Div.remLimb x d), e)
+      ++ [(pb one, be), (pb pre, be), (pb one, be), (pb pre, be)]
+      ++ [(pb (one.1, Div.boxedRemLimb x d), be), (pb (one.1, Div.boxedRemLimbWithReciprocal x rc), be),
+          (pb (one.1, Div.boxedRemLimb x d), be), (pb (one.1, Div.boxedRemLimbWithReciprocal x rc), be)])
+  | _, _ => none
+
+/-- `c15.<family> n a s…` with decimal small parameters after the first value -/
+def shiftFam (name : String) (n a : Nat) (ps : List Nat) : Option String :=
+  let x := toLimbs n a
+  let K := B ^ n
+  let bits := 64 * n
+  let h := natToHex
+  let hl := lenHex n
+  match name, ps with
+  | "shl", [s] =>
+    let v := if s < bits then (a * 2 ^ s) % K else 0
+    fam ([(pHex (Shift.ushl x s), if s < bits then h v else "panic"),
+          (pHex (Shift.ushlVartime x s), if s < bits then h v else "panic")]
+      ++ rep 6 (pHex (Shift.ushl x s), if s < bits then h v else "panic")
+      ++ rep 7 (pLen (Shift.boxedShl x s), if s < bits then hl v else "panic"))
+  | "shr", [s] =>
+    let v := if s < bits then a / 2 ^ s else 0
+    fam ([(pHex (Shift.ushr x s), if s < bits then h v else "panic"),
+          (pHex (Shift.ushrVartime x s), if s < bits then h v else "panic")]
+      ++ rep 6 (pHex (Shift.ushr x s), if s < bits then h v else "panic")
+      ++ rep 7 (pLen (Shift.boxedShr x s), if s < bits then hl v else "panic"))
+  | "oshl", [s] =>
+    let v := if s < bits then (a * 2 ^ s) % K else 0
+    let e := if s < bits then h v else "none"
+    let be := if s < bits then hl v else "none"
+    let ct : String := match Shift.overflowingShl x s with | some o => mHex o | none => "panic"
+    let bct : String := match Shift.boxedOverflowingShl x s with
+      | some o => if o.2 then "none" else limbsHexLen o.1 | none => "panic"
+    fam [(ct, e), (mHex (Shift.overflowingShlVartime x s), e), (ct, e),
+         (bct, be), (oLen (Shift.boxedShlVartime x s), be), (bct, be)]
+  | "oshr", [s] =>
+    let v := if s < bits then a / 2 ^ s else 0
+    let e := if s < bits then h v else "none"
+    let be := if s < bits then hl v else "none"
+    let ct : String := match Shift.overflowingShr x s with | some o => mHex o | none => "panic"
+    let bct : String := match Shift.boxedOverflowingShr x s with
+      | some o => if o.2 then "none" else limbsHexLen o.1 | none => "panic"
+    fam [(ct, e), (mHex (Shift.overflowingShrVartime x s), e), (ct, e),
+         (bct, be), (oLen (Shift.boxedShrVartime x s), be), (bct, be)]
+  | "wshl", [s] =>
+    let v := if s < bits then (a * 2 ^ s) % K else 0
+    let bw : String := match Shift.boxedOverflowingShl x s with | some o => limbsHexLen o.1 | none => "panic"
+    fam ([(pHex (Shift.wrappingShlU x s), h v), (limbsHex (Shift.wrappingShlVartimeU x s), h v)]
+      ++ rep 4 (pHex (Shift.wrappingShlU x s), h v)
+      ++ [(bw, hl v), (limbsHexLen (Shift.boxedWrappingShlVartime x s), hl v)] ++ rep 4 (bw, hl v))
+  | "wshr", [s] =>
+    let v := if s < bits then a / 2 ^ s else 0
+    let bw : String := match Shift.boxedOverflowingShr x s with | some o => limbsHexLen o.1 | none => "panic"
+    fam ([(pHex (Shift.wrappingShrU x s), h v), (limbsHex (Shift.wrappingShrVartimeU x s), h v)]
+      ++ rep 4 (pHex (Shift.wrappingShrU x s), h v)
+      ++ [(bw, hl v), (limbsHexLen (Shift.boxedWrappingShrVartime x s), hl v)] ++ rep 4 (bw, hl v))
+  | "bits", [] =>
+    let e := toString (bitlen0 a)
+    let ct := (toString (Bits.ubits x), e)
+    let vt := (pDec (Bits.bitsVartime x), e)
+    fam [ct, vt, ct, vt, ct, vt, ct, vt]
+  | "lz", [] =>
+    let e := toString (bits - bitlen0 a)
+    let ct := (toString (Bits.leadingZeros x), e)
+    let vt := (pDec (Bits.leadingZerosVartime x), e)
+    fam [ct, vt, ct, vt, ct, ct, vt]
+  | "tz", [] =>
+    let e := toString (tz0 bits a)
+    let ct := (toString (Bits.trailingZeros x), e)
+    let vt := (toString (Bits.trailingZerosVartime x), e)
+    fam [ct, vt, ct, vt, ct, vt, ct, vt]
+  | "to", [] =>
+    let e := toString (to0 bits a)
+    let ct := (toString (Bits.trailingOnes x), e)
+    let vt := (toString (Bits.trailingOnesVartime x), e)
+    fam [ct, vt, ct, vt, ct, vt, ct, vt]
+  | "bit", [i] =>
+    let e := bitTok (a.testBit i)
+    let ct := (choiceTok (Bits.bitCt x i), e)
+    let vt := (bitTok (Bits.bitVartime x i), e)
+    fam [ct, vt, ct, vt, ct, vt, ct, vt]
+  | "set_bit", [i, v] =>
+    let r0 := if i < bits then (if v = 1 then a ||| 2 ^ i else a - (if a.testBit i then 2 ^ i else 0)) else a
+    let ct := Bits.setBit x i (if v = 1 then WMAX else 0)
+    let vt := Bits.setBitVartime x i (v = 1)
+    fam [(limbsHex ct, h r0), (limbsHex vt, h r0), (limbsHexLen ct, hl r0), (limbsHexLen vt, hl r0)]
+  | "select", [b, c] =>
+    let y := toLimbs n b
+    let m := maskOfBit c
+    let r0 := if c = 0 then a else b
+    fam (rep 6 (limbsHex (uselect x y m), h r0) ++ rep 3 (limbsHexLen (uselect x y m), hl r0))
+  | _, _ => none
+
+/-- `c15.l.<family>`: `Limb` routes next to `U64` -/
+def limbFam (name : String) (vs : List Nat) : Option String :=
+  let h := natToHex
+  match name, vs with
+  | "add", [a, b] =>
+    let s := h ((a + b) % B)
+    fam (rep 3 (h (wadd a b), s) ++ [(h (adc a b 0).1, s), (h (overflowingAdd a b).1, s), (h (wadd a b), s),
+      (limbsHex (wrappingAdd [a] [b]), s)])
+  | "sub", [a, b] =>
+    let s := h ((a + B - b) % B)
+    fam (rep 3 (h (wsub a b), s) ++ [(h (sbb a b 0).1, s), (h (wsub a b), s), (limbsHex (wrappingSub [a] [b]), s)])
+  | "cadd", [a, b] =>
+    let ca := adc a b 0
+    let ok := fromWordEq ca.2 0 = WMAX
+    fam (rep 2 (if ok then h ca.1 else "none", if a + b < B then h (a + b) else "none")
+      ++ [(if ok then h ca.1 else "panic", if a + b < B then h (a + b) else "panic"),
+          (mHex (checkedAdd [a] [b]), if a + b < B then h (a + b) else "none")])
+  | "csub", [a, b] =>
+    let cs := sbb a b 0
+    let ok := fromWordEq cs.2 0 = WMAX
+    fam (rep 2 (if ok then h cs.1 else "none", if b ≤ a then h (a - b) else "none")
+      ++ rep 2 (if ok then h cs.1 else "panic", if b ≤ a then h (a - b) else "panic")
+      ++ [(mHex (checkedSub [a] [b]), if b ≤ a then h (a - b) else "none")])
+  | "mul", [a, b] =>
+    let s := h ((a * b) % B)
+    fam (rep 4 (h (Mul.limbWrappingMul a b), s) ++ [(h (mac 0 a b 0).1, s),
+      (limbsHex (Mul.wrappingOfPair (Karatsuba.splitMul [a] [b])), s)])
+  | "cmul", [a, b] =>
+    let r := Mul.limbCheckedMul a b
+    let fits := a * b < B
+    fam (rep 2 (if r.2 = WMAX then h r.1 else "none", if fits then h (a * b) else "none")
+      ++ rep 2 (if r.2 = WMAX then h r.1 else "panic", if fits then h (a * b) else "panic")
+      ++ [(mHex (Mul.checkedOfPair (Karatsuba.splitMul [a] [b])), if fits then h (a * b) else "none")])
+  | "cmp", [a, b] =>
+    let o := ordTok (natOrd a b)
+    fam (rep 3 (ordTok (limbCmp a b), o) ++ [(ordTok (ucmp [a] [b]), o)])
+  | "bits", [a] =>
+    let e := toString (bitlen0 a)
+    fam [(toString (Bits.limbBits a), e), (toString (64 - Shift.wlz a), e), (toString (Bits.ubits [a]), e),
+         (pDec (Bits.bitsVartime [a]), e)]
+  | _, _ => none
+
+/-- `c15.const.<family> k …`: the compile-time table of the harness (U256 inputs repeated on the line) -/
+def constFam (name : String) (args : List String) : Option String :=
+  let n := 4
+  let L := toLimbs n
+  let K := B ^ n
+  let h := natToHex
+  match name, args with
+  | "add", [_, a, b] =>
+    match hexToNat? a, hexToNat? b with
+    | some a, some b => fam (rep 2 (limbsHex (wrappingAdd (L a) (L b)), h ((a + b) % K)))
+    | _, _ => badArgs
+  | "sub", [_, a, b] =>
+    match hexToNat? a, hexToNat? b with
+    | some a, some b => fam (rep 2 (limbsHex (wrappingSub (L a) (L b)), h ((a + K - b % K) % K)))
+    | _, _ => badArgs
+  | "mul", [_, a, b] =>
+    match hexToNat? a, hexToNat? b with
+    | some a, some b =>
+      let r := Karatsuba.splitMul (L a) (L b)
+      fam (rep 2 (s!"{limbsHex (Mul.wrappingOfPair r)} {limbsHex r.2}", s!"{h (a * b % K)} {h (a * b / K)}"))
+    | _, _ => badArgs
+  | "neg", [_, a] =>
+    match hexToNat? a with
+    | some a => fam (rep 2 (limbsHex (wrappingNeg (L a)), h ((K - a % K) % K)))
+    | none => badArgs
+  | "shl", [_, a, s] =>
+    match hexToNat? a, s.toNat? with
+    | some a, some s =>
+      let e := if s < 256 then h ((a * 2 ^ s) % K) else "panic"
+      fam [(pHex (Shift.ushl (L a) s), e), (pHex (Shift.ushlVartime (L a) s), e),
+           (pHex (Shift.ushl (L a) s), e), (pHex (Shift.ushlVartime (L a) s), e)]
+    | _, _ => badArgs
+  | "shr", [_, a, s] =>
+    match hexToNat? a, s.toNat? with
+    | some a, some s =>
+      let e := if s < 256 then h (a / 2 ^ s) else "panic"
+      fam [(pHex (Shift.ushr (L a) s), e), (pHex (Shift.ushrVartime (L a) s), e),
+           (pHex (Shift.ushr (L a) s), e), (pHex (Shift.ushrVartime (L a) s), e)]
+    | _, _ => badArgs
+  | "bits", [_, a] =>
+    match hexToNat? a with
+    | some a =>
+      let e := toString (bitlen0 a)
+      fam [(toString (Bits.ubits (L a)), e), (pDec (Bits.bitsVartime (L a)), e),
+           (toString (Bits.ubits (L a)), e), (pDec (Bits.bitsVartime (L a)), e)]
+    | none => badArgs
+  | "tz", [_, a] =>
+    match hexToNat? a with
+    | some a => fam (rep 2 (toString (Bits.trailingZeros (L a)), toString (tz0 256 a)))
+    | none => badArgs
+  | "sqrt", [_, a] =>
+    match hexToNat? a with
+    | some a =>
+      let e := h (Nat.sqrt a)
+      fam [(pHex (Sqrt.uintSqrt (L a)), e), (pHex (Sqrt.uintSqrtVartime (L a)), e),
+           (pHex (Sqrt.uintSqrt (L a)), e), (pHex (Sqrt.uintSqrtVartime (L a)), e)]
+    | none => badArgs
+  | "div", [_, a, d] =>
+    match hexToNat? a, hexToNat? d with
+    | some a, some d =>
+      if d = 0 then badArgs else
+      let qr (p : List Nat × List Nat) : String := s!"{limbsHex p.1} {limbsHex p.2}"
+      let e := s!"{h (a / d)} {h (a % d)}"
+      fam [(qr (Div.divRemCt (L a) (L d)), e), (qr (Div.divRemVartime (L a) (L d)), e),
+           (qr (Div.divRemCt (L a) (L d)), e), (qr (Div.divRemVartime (L a) (L d)), e)]
+    | _, _ => badArgs
+  | "cmp", [_, a, b] =>
+    match hexToNat? a, hexToNat? b with
+    | some a, some b =>
+      let e := toString (natOrd a b)
+      fam [(toString (ucmpVartime (L a) (L b)), e), (toString (ucmpVartime (L a) (L b)), e), (toString (ucmp (L a) (L b)), e)]
+    | _, _ => badArgs
+  -- conversions: the value of the literal (forwarding / decoding routes; exercised, L1 = value level)
+  | "hex", [s] =>
+    match tokToBytes? s with
+    | some bs =>
+      match hexToNat? (String.ofList (bs.map Char.ofNat)) with
+      | some v => fam (rep 4 (h v, h v))
+      | none => badArgs
+    | none => badArgs
+  | "u128", [v] =>
+    match hexToNat? v with
+    | some v => fam (rep 4 (h v, h v))
+    | none => badArgs
+  | "words", [v] =>
+    match hexToNat? v with
+    | some v => fam (rep 3 (h v, h v))
+    | none => badArgs
+  | _, _ => none
+
+def hexs? (l : List String) : Option (List Nat) := l.mapM hexToNat?
+def decs? (l : List String) : Option (List Nat) := l.mapM (·.toNat?)
+
+/-- families whose parameters after the first value are decimal (shift amounts, bit indices, choices) -/
+def isShiftFam (name : String) : Bool :=
+  ["shl", "shr", "oshl", "oshr", "wshl", "wshr", "bits", "lz", "tz", "to", "bit", "set_bit"].contains name
+
+end D15
+
+open D15 in
 /-- operations of property C15 (op names start with `c15.`) -/
-def dispatchC15 : Dispatch := fun _ _ => none
+def dispatchC15 : Dispatch := fun op args =>
+  match op.splitOn ".", args with
+  | ["c15", "l", name], vs =>
+    match hexs? vs with
+    | some vs => limbFam name vs
+    | none => badArgs
+  | ["c15", "const", name], vs => constFam name vs
+  | ["c15", "select"], [n, a, b, c] =>
+    match n.toNat?, hexToNat? a, hexToNat? b, c.toNat? with
+    | some n, some a, some b, some c => shiftFam "select" n a [b, c]
+    | _, _, _, _ => badArgs
+  | ["c15", name], n :: a :: rest =>
+    if isShiftFam name then
+      match n.toNat?, hexToNat? a, decs? rest with
+      | some n, some a, some ps => shiftFam name n a ps
+      | _, _, _ => badArgs
+    else
+      match n.toNat?, hexs? (a :: rest) with
+      | some n, some vs => valueFam name n vs
+      | _, _ => badArgs
+  | _, _ => none
 
 end CB
